@@ -108,6 +108,102 @@ def _pin():
         pass
 
 
+def _proc_main(conn, slot):
+    """Worker process: one job at a time over its own pipe."""
+    global _PINNED
+    try:
+        cpus = sorted(os.sched_getaffinity(0))
+        os.sched_setaffinity(0, {cpus[slot % len(cpus)]})
+        _PINNED = True
+    except (AttributeError, OSError):
+        pass
+    while True:
+        try:
+            item = conn.recv()
+        except EOFError:
+            return
+        if item is None:
+            return
+        crash = os.environ.get('LV_TEST_CRASH')         # self-test of the runner only: die once like a segfaulting interpreter
+        if crash and not os.path.exists(crash):
+            open(crash, 'w').close()
+            os.kill(os.getpid(), 11)
+        conn.send(_worker(item))
+
+
+def run_jobs(pid, jobs, nproc):
+    """Yield (status, result) per job from `nproc` worker processes.  Unlike multiprocessing.Pool this survives the death of a
+    worker (CPython itself has been seen to crash with a general protection fault under engine B's tracing threads, about once
+    per hour of schedule exploration): the job is given to a fresh worker, twice at most, then reported as an internal error."""
+    from multiprocessing.connection import wait
+    ctx = multiprocessing.get_context('fork')
+    todo = [[pid, j, 0] for j in reversed(jobs)]
+    workers = {}        # slot -> (process, connection, item | None)
+
+    def spawn(slot):
+        parent, child = ctx.Pipe()
+        p = ctx.Process(target=_proc_main, args=(child, slot), daemon=True)
+        p.start()
+        child.close()
+        workers[slot] = [p, parent, None]
+
+    def feed(slot):
+        w = workers[slot]
+        if todo:
+            item = todo.pop()
+            w[2] = item
+            w[1].send((item[0], item[1]))
+        else:
+            w[2] = None
+    for s in range(nproc):
+        spawn(s)
+        feed(s)
+    try:
+        while any(w[2] is not None for w in workers.values()):
+            busy = {s: w for s, w in workers.items() if w[2] is not None}
+            ready = wait([w[1] for w in busy.values()] + [w[0].sentinel for w in busy.values()])
+            for s, w in list(busy.items()):
+                got, res = False, None
+                if w[1] in ready:
+                    try:
+                        res = w[1].recv()
+                        got = True
+                    except (EOFError, OSError):
+                        pass
+                if got:
+                    yield res
+                    feed(s)
+                    continue
+                if w[1] in ready or w[0].sentinel in ready:
+                    # the pipe was closed without a result, or the process is gone
+                    w[0].join(5)
+                    item = w[2]
+                    code = w[0].exitcode
+                    try:
+                        w[1].close()
+                    except OSError:
+                        pass
+                    item[2] += 1
+                    if item[2] > 2:
+                        yield ('crash', 'job %r: the worker process died %d times (last exit code %r)' % (item[1], item[2], code))
+                    else:
+                        sys.stderr.write('[lv] worker died (exit code %r) while running a job of %s; the job is re-run in a fresh worker\n' % (code, pid))
+                        todo.append(item)
+                    spawn(s)
+                    feed(s)
+    finally:
+        for w in workers.values():
+            try:
+                w[1].send(None)
+                w[1].close()
+            except (OSError, BrokenPipeError):
+                pass
+        for w in workers.values():
+            w[0].join(2)
+            if w[0].is_alive():
+                w[0].terminate()
+
+
 def _worker(args):
     mod, job = args
     _pin()
@@ -176,13 +272,11 @@ def run_check(pid, tier, seed, out=sys.stdout):
     crashes = []
     nproc = min(NPROC, max(1, len(jobs)))
     if nproc > 1:
-        ctx = multiprocessing.get_context('fork')
-        with ctx.Pool(nproc, maxtasksperchild=None) as pool:
-            for status, r in pool.imap_unordered(_worker, [(pid, j) for j in jobs], chunksize=1):
-                if status == 'ok':
-                    total.merge(r)
-                else:
-                    crashes.append(r)
+        for status, r in run_jobs(pid, jobs, nproc):
+            if status == 'ok':
+                total.merge(r)
+            else:
+                crashes.append(r)
     else:
         for j in jobs:
             status, r = _worker((pid, j))
@@ -300,9 +394,11 @@ def _job_worker(args):
 
 
 def _job_signatures(pid, job):
-    ctx = multiprocessing.get_context('fork')
-    with ctx.Pool(1, maxtasksperchild=1) as pool:
-        return pool.apply(_job_worker, ((pid, job),))
+    for status, r in run_jobs(pid, [job], 1):          # a fresh process, tolerant of a dying worker
+        if status != 'ok':
+            return None
+        return sorted(set(v.signature for v in r.violations))
+    return None
 
 
 def replay_file(path, out=sys.stdout):
